@@ -134,3 +134,77 @@ func TestVerifC01Stream(t *testing.T) {
 		Bound: "36 lock-step scripts", Exhaustive: true, Sample: map[string]interface{}{"content_type": "text/event-stream", "parts": 3},
 		Extra: map[string]interface{}{"wall_s": time.Since(start).Seconds()}})
 }
+
+// Truncated responses: the backend breaks off in a way a client can tell (missing final chunk,
+// short chunk, fewer bytes than Content-Length). Through Helios the client must still be able
+// to tell: a broken-off response must not arrive as a complete, well-formed one.
+func TestVerifC01Truncated(t *testing.T) {
+	r := vres.Open("C01", "Truncated")
+	defer func() {
+		if err := r.Close(); err != nil {
+			t.Fatal(err)
+		}
+	}()
+	shard, _ := shardOf()
+	if shard != 0 {
+		return
+	}
+	start := time.Now()
+	behaviours := map[string]string{
+		"chunked-no-terminator":    "HTTP/1.1 200 OK\r\nContent-Type: text/plain\r\nTransfer-Encoding: chunked\r\n\r\n5\r\nhello\r\n",
+		"chunked-short-chunk":      "HTTP/1.1 200 OK\r\nContent-Type: text/plain\r\nTransfer-Encoding: chunked\r\n\r\n64\r\nonly-ten-b",
+		"chunked-two-then-cut":     "HTTP/1.1 200 OK\r\nContent-Type: text/event-stream\r\nTransfer-Encoding: chunked\r\n\r\n3\r\nabc\r\n3\r\ndef\r\n",
+		"length-short-body":        "HTTP/1.1 200 OK\r\nContent-Type: text/plain\r\nContent-Length: 1000\r\n\r\n0123456789",
+		"length-short-body-404":    "HTTP/1.1 404 Not Found\r\nContent-Type: text/plain\r\nContent-Length: 50\r\n\r\nnope",
+		"chunked-complete-control": "HTTP/1.1 200 OK\r\nContent-Type: text/plain\r\nTransfer-Encoding: chunked\r\n\r\n5\r\nhello\r\n0\r\n\r\n",
+	}
+	var evals int64
+	var outs vres.Outcomes
+	for _, breaker := range []bool{false, true} {
+		rb := wire.NewRawBackend()
+		cfg := baseConfig("round_robin", rb.URL())
+		if breaker {
+			cfg.CircuitBreaker = config.CircuitBreakerConfig{Enabled: true, MaxRequests: 1, IntervalSeconds: 60, TimeoutSeconds: 60, FailureThreshold: 100, SuccessThreshold: 1}
+		}
+		h, err := startHelios(cfg)
+		if err != nil {
+			t.Fatal(err)
+		}
+		for name, raw := range behaviours {
+			raw := raw
+			rb.Set(func(c net.Conn, n int) {
+				defer c.Close()
+				wire.ReadRequestHead(c)
+				c.Write([]byte(raw))
+			})
+			get := func(addr string) wire.Response {
+				c, err := wire.Dial(addr)
+				if err != nil {
+					return wire.Response{Err: "dial: " + err.Error()}
+				}
+				defer c.Close()
+				return c.Do(&wire.Request{Method: "GET", Target: "/t", Header: []wire.HeaderLine{{"Host", "x.test"}}, NoBody: true}, 10*time.Second)
+			}
+			direct := get(rb.Addr())
+			via := get(h.addr)
+			evals++
+			outs.Add(fmt.Sprintf("%s/direct-broken=%v/via-broken=%v", name, direct.Err != "", via.Err != ""))
+			desc := fmt.Sprintf("breaker=%v %s", breaker, name)
+			switch {
+			case direct.Err != "" && via.Err == "":
+				r.Violate("C01/truncated/broken-off-response-delivered-as-complete", fmt.Sprintf("%s: directly the client sees %q; through Helios it receives a complete, well-formed %d response with %d body bytes", desc, direct.Err, via.Status, len(via.Body)), len(name), map[string]interface{}{"engine": "W", "test": "TestVerifC01Truncated", "behaviour": name, "breaker": breaker})
+			case direct.Err == "" && via.Err != "":
+				r.Violate("C01/truncated/complete-response-broken", fmt.Sprintf("%s: a complete response arrives broken through Helios: %s", desc, via.Err), len(name), nil)
+			case via.Status != 0 && direct.Status != via.Status:
+				r.Violate("C01/truncated/status-changed", fmt.Sprintf("%s: status %d became %d", desc, direct.Status, via.Status), len(name), nil)
+			case !strings.HasPrefix(string(direct.Body), string(via.Body)) && !strings.HasPrefix(string(via.Body), string(direct.Body)):
+				r.Violate("C01/truncated/body-prefix-altered", fmt.Sprintf("%s: direct body %q, through Helios %q", desc, direct.Body, via.Body), len(name), nil)
+			}
+		}
+		h.stop()
+		rb.Close()
+	}
+	r.AddScenario(vres.Scenario{Name: "truncated-responses", Engine: "W", Evaluations: evals, Distinct: int64(outs.N()), Outcomes: outs.N(),
+		Rule:  "raw backend answers that break off detectably (and one complete control), exchanged directly and through Helios with and without the breaker: detectably incomplete must stay detectably incomplete",
+		Bound: "6 behaviours x breaker on/off", Exhaustive: true, Sample: outs.Map(), Extra: map[string]interface{}{"wall_s": time.Since(start).Seconds()}})
+}
